@@ -17,7 +17,7 @@ from mc import core, httpharness as hh
 PROPERTY = 'C15'
 LEVEL = 'model_checking'
 RULE = ('case = body kind {empty str, str, bytes, list, list with None, returned generator (coroutine), streamed generator of str / of '
-        'bytes / with empty items first-middle-last / many chunks, file object, streamed list, non-streamed generator / tuple} x size {0, small with multi-byte '
+        'bytes / with empty items first-middle-last / many chunks, file object, file-like object with short reads, streamed list, non-streamed generator / tuple} x size {0, small with multi-byte '
         'characters, 70 KiB} x status {200, 201, 204, 304, 404 via notfound(), 500 via raise} x HTTP/1.0 | 1.1 x Connection {absent, '
         'keep-alive, close} x {GET, HEAD}; every single case and every sequence of 2 (thorough: 3 from a reduced menu) cases on one '
         'connection; non-trivial = every case; distinct = distinct case sequence')
@@ -47,7 +47,7 @@ def chunks(text, n):
 
 
 KINDS = ['str', 'bytes', 'list', 'listnone', 'coroutine', 'gen_str', 'gen_bytes', 'gen_empty_first', 'gen_empty_mid', 'gen_empty_last',
-         'gen_many', 'file', 'stream_list', 'gen_nostream', 'tuple']
+         'gen_many', 'file', 'shortread_file', 'stream_list', 'gen_nostream', 'tuple']
 
 
 def make_body(kind, size, res):
@@ -84,10 +84,27 @@ def make_body(kind, size, res):
         items = chunks(text, 3)
         res.body = tuple(items) if kind == 'tuple' else (x for x in items)
         return res, data
+    if kind == 'shortread_file':
+        # a stream whose read(n) legitimately returns fewer than n bytes before its end (raw / unbuffered streams, pipes)
+        res.body = ShortReads(data)
+        return res, data
     if kind == 'file':
         res.body = io.BytesIO(data)
         return res, data
     raise ValueError(kind)
+
+
+class ShortReads:
+    def __init__(self, data, piece=37):
+        self._f = io.BytesIO(data)
+        self._piece = piece
+        self.closed = False
+
+    def read(self, n=-1):
+        return self._f.read(self._piece if n is None or n < 0 else min(n, self._piece))
+
+    def close(self):
+        self.closed = True
 
 
 class App(BaseComponent):
